@@ -30,6 +30,9 @@ def SpecState.step (s : SpecState) : Op → SpecState
 def specOf (ops : List Op) : List (Bytes × Bytes) :=
   (ops.foldl SpecState.step {}).files.map fun f => (f.name, f.content)
 
+/-- `helpers::StreamWriter::write(buf)`: one `append_file_content(id, buf.len(), buf)` (helpers.rs:94) -/
+def StreamWriter.write (id : Nat) (buf : Bytes) : Op := .append id buf.length buf
+
 /-- well-formed op: the name is valid UTF-8 (the API takes `&str`), the announced size is a u64 -/
 def Op.WF (utf8 : Bytes → Bool) : Op → Prop
   | .start n => utf8 n = true
